@@ -29,12 +29,12 @@ class Drv:
         self.proc = subprocess.Popen([DRV_BIN], stdin=subprocess.PIPE, stdout=subprocess.PIPE,
                                      stderr=subprocess.DEVNULL, text=True, bufsize=1, close_fds=True)
 
-    def call(self, op, **kw):
+    def call(self, op, _timeout=None, **kw):
         kw["op"] = op
         import select
         self.proc.stdin.write(json.dumps(kw) + "\n")
         self.proc.stdin.flush()
-        ready, _, _ = select.select([self.proc.stdout], [], [], self.CALL_TIMEOUT)
+        ready, _, _ = select.select([self.proc.stdout], [], [], _timeout or self.CALL_TIMEOUT)
         if not ready:
             # the model/oracle did not answer in time: restart the driver, report an infrastructure error
             self.proc.kill()
